@@ -311,6 +311,10 @@ class RealSession:
 			left = [m for m in mods if m not in loaded]
 			if left:
 				out.append(f"{name} still knows {left}, which Modules does not list{' (just unloaded)' if unloaded in left else ''}")
+		# .. and the other way round for the parsed sources: a registered module has its entrypoint in the table (Inv.eps)
+		lost = [m for m in loaded if m not in tables['Entrypoints']]
+		if lost:
+			out.append(f'Modules lists {lost}, which Entrypoints does not know')
 		return out
 
 	def snapshot(self, only: list[str]) -> dict[str, Any]:
@@ -1405,7 +1409,7 @@ def search_memo(ctx: Ctx, cases: list[dict[str, Any]]) -> SearchResult:
 
 
 def search_residue(ctx: Ctx, cases: list[dict[str, Any]]) -> SearchResult:
-	res = SearchResult('after every op: Entrypoints, SymbolDB keys and SymbolDB completed know only modules that Modules lists; after unload m none of the four knows m (each table read on its own)')
+	res = SearchResult('after every op: Entrypoints, SymbolDB keys and SymbolDB completed know only modules that Modules lists, every module Modules lists has its entrypoint; after unload m none of the four knows m (each table read on its own)')
 	for case in cases:
 		run = session_run(ctx, case)
 		res.cases += len(case['ops'])
